@@ -3,14 +3,15 @@ from harness.framework import Stream
 from harness import c02
 
 PROPERTY = "C11"
-RULE = ("schedules of 1-6 elements (leaf tasks / parallels of 1-4 tasks; names, 4 operation types, 0-2 tags) x include|exclude lists of 0-3 "
+RULE = ("(stream filtered_race: the filtered track run to completion on the simulator, see claims) schedules of 1-6 elements (leaf tasks / parallels of 1-4 tasks; names, 4 operation types, 0-2 tags) x include|exclude lists of 0-3 "
         "filters (name, type:, tag:, malformed) biased to match all / some / none of a parallel; signature = model branch tags + mode; "
         "non-trivial = at least one filter and at least one parallel or two elements")
 TRUSTED = ["list.remove(first equal element) is modelled as filtering; equivalent when task names are distinct (loader rule)"]
 ASSUMPTIONS = ["task names are distinct within a challenge"]
 
 OPTYPES = ["bulk", "search", "force-merge", "index-stats"]
-TAGS = ["setup", "query", "slow", "x"]
+# tag names with substring relations (a tag filter is list membership, not substring search)
+TAGS = ["setup", "post-setup", "query", "slow", "x", "xx", "read", "read-heavy"]
 
 
 class Cfg:
@@ -26,7 +27,8 @@ def gen_case(rng):
 
     def task():
         nid[0] += 1
-        return {"id": nid[0], "name": f"task{nid[0]}", "type": rng.choice(OPTYPES), "tags": rng.sample(TAGS, rng.choice([0, 0, 1, 2]))}
+        return {"id": nid[0], "name": f"task{nid[0]}", "type": rng.choice(OPTYPES), "tags": rng.sample(TAGS, rng.choice([0, 0, 1, 1, 2])),
+                "tagstr": rng.random() < 0.5}
 
     sched = []
     for _ in range(rng.randint(1, 6)):
@@ -56,7 +58,8 @@ def gen_case(rng):
     elif mode == "malformed":
         filters = [rng.choice(["foo:bar", "a:b:c", "type:bulk:x", ":", "tag:", "type:", "name:task1"])] + ([all_tasks[0]["name"]] if rng.random() < 0.5 else [])
         rng.shuffle(filters)
-    case = {"schedule": sched, "exclude": exclude, "filters": filters}
+    # half of the cases go through the track specification reader (JSON spec -> track objects) instead of building objects directly
+    case = {"schedule": sched, "exclude": exclude, "filters": filters, "via_spec": rng.random() < 0.5}
     if rng.random() < 0.35:
         # a second challenge sharing tasks (same name / operation / parameters) that are tagged or typed differently there
         import copy
@@ -79,15 +82,45 @@ def gen(ctx):
 def build(case):
     from esrally.track import track
 
+    if case.get("via_spec"):
+        return build_from_spec(case)
     sched = []
     for e in case["schedule"]:
-        mk = lambda t: track.Task(t["name"], track.Operation("op-" + t["name"], t["type"]), tags=list(t["tags"]), clients=1 + t["id"] % 3, iterations=t["id"])
+        mk = lambda t: track.Task(t["name"], track.Operation("op-" + t["name"], t["type"]), tags=_tags(t), clients=1 + t["id"] % 3, iterations=t["id"])
         if "leaf" in e:
             sched.append(mk(e["leaf"]))
         else:
             sched.append(track.Parallel([mk(t) for t in e["par"]], clients=e["payload"]))
     ch = track.Challenge("c", default=True, schedule=sched)
     return track.Track("t", challenges=[ch]), ch
+
+
+def _tags(t):
+    """`tags` of a task may be a list of strings or one plain string (documented)"""
+    if t.get("tagstr") and len(t["tags"]) == 1:
+        return t["tags"][0]
+    return list(t["tags"])
+
+
+def build_from_spec(case):
+    """the same schedule as a JSON track specification, read by the real TrackSpecificationReader"""
+    from esrally.track import loader
+
+    def mk(t):
+        d = {"name": t["name"], "operation": {"name": "op-" + t["name"], "operation-type": t["type"]}, "clients": 1 + t["id"] % 3, "iterations": t["id"]}
+        if t["tags"]:
+            d["tags"] = _tags(t)
+        return d
+
+    sched = []
+    for e in case["schedule"]:
+        if "leaf" in e:
+            sched.append(mk(e["leaf"]))
+        else:
+            sched.append({"parallel": {"clients": e["payload"], "tasks": [mk(t) for t in e["par"]]}})
+    spec = {"description": "d", "indices": [{"name": "i"}], "challenges": [{"name": "c", "default": True, "schedule": sched}]}
+    trk = loader.TrackSpecificationReader()("t", spec, "/mappings")
+    return trk, trk.challenges[0]
 
 
 def build2(case):
@@ -183,6 +216,94 @@ def _check_challenge(ctx, case, ch, before, failed, ci):
     ctx.sig([tags, "err" if "err" in impl else "ok", ci], nontrivial=bool(case["filters"]) and (len(case["schedule"]) > 1 or any("par" in e for e in case["schedule"])))
 
 
+# ---------------------------------------------------------------------------------------------
+# the filtered track is runnable: real DriverActor / Driver / Worker run it to completion on the simulator
+# ---------------------------------------------------------------------------------------------
+def gen_race(ctx):
+    from harness import c01
+
+    rng = ctx.rng
+    for _ in range(ctx.budget):
+        sc = c01.gen_scenario(rng, small=True)
+        tasks = []
+        for e in sc["schedule"]:
+            for t in ([e["leaf"]] if "leaf" in e else e["par"]):
+                # only finite tasks without completed-by: whether a filter may remove the task that ends an element is a
+                # question of track design, not of the filter
+                for k in ("cp", "acp", "eternal"):
+                    t.pop(k, None)
+                t.setdefault("iterations", rng.randint(1, 3))
+                t["tags"] = rng.sample(TAGS, rng.choice([0, 1, 1, 2]))
+                if len(t["tags"]) == 1 and rng.random() < 0.5:
+                    t["tags"] = t["tags"][0]
+                tasks.append(t)
+        sc["max_wakeup_delay"] = rng.choice([0.0, 0.0, 0.25])
+        sc.pop("delay_bias", None)
+        mode = rng.choice(["matches-nothing", "matches-everything", "some-names", "some-tags", "one-element"])
+        if mode == "matches-nothing":
+            fl = [rng.choice(["nosuchtask", "tag:nosuchtag", "type:force-merge"])]
+        elif mode == "matches-everything":
+            fl = [t["name"] for t in tasks] if rng.random() < 0.5 else ["type:sim"]
+        elif mode == "some-names":
+            fl = [t["name"] for t in tasks if rng.random() < 0.5] or [tasks[0]["name"]]
+        elif mode == "some-tags":
+            fl = ["tag:" + x for x in rng.sample(TAGS, rng.randint(1, 3))]
+        else:
+            e = rng.choice(sc["schedule"])
+            fl = [t["name"] for t in ([e["leaf"]] if "leaf" in e else e["par"])]
+        exclude = rng.random() < 0.5
+        sc["task_filter"] = {"exclude": fl} if exclude else {"include": fl}
+        yield {"scenario": sc, "seed": rng.randrange(1 << 30), "mode": mode}
+
+
+def run_race(ctx, case):
+    from harness import c01
+
+    sc = case["scenario"]
+    flt = sc["task_filter"]
+    exclude = "exclude" in flt
+    fl = flt["exclude"] if exclude else flt["include"]
+
+    def matches(t):
+        tags = [t["tags"]] if isinstance(t["tags"], str) else t["tags"]
+        for f in fl:
+            sp = f.split(":")
+            if (len(sp) == 1 and sp[0] == t["name"]) or (len(sp) == 2 and sp[0] == "type" and sp[1] == "sim") or (len(sp) == 2 and sp[0] == "tag" and sp[1] in tags):
+                return True
+        return False
+
+    # reference: remaining elements and tasks
+    remaining = []
+    for e in sc["schedule"]:
+        ts = [t for t in ([e["leaf"]] if "leaf" in e else e["par"]) if matches(t) != exclude]
+        if ts:
+            remaining.append((e, ts))
+    S = len(remaining)
+    sim, res = c01.run_sim(case)
+    try:
+        inbox = [type(m).__name__ for m in sim.rc.inbox]
+        exp = ["PreparationComplete"] + ["TaskFinished"] * S + ["BenchmarkComplete"]
+        cls = "filtered-race:" + ("nothing-left" if S == 0 else "some-left")
+        if "BenchmarkFailure" in inbox:
+            f = [m for m in sim.rc.inbox if type(m).__name__ == "BenchmarkFailure"][0]
+            ctx.fail(cls + ":failure", "the driver fails on the filtered track", exp, str(f.message)[-400:])
+        elif res != "until":
+            ctx.fail(cls + ":hang", f"the driver does not complete the filtered track ({res}); race control saw {inbox}", exp, inbox)
+        elif inbox != exp:
+            ctx.fail(cls + ":steps", "not one TaskFinished per remaining element followed by BenchmarkComplete", exp, inbox)
+        else:
+            reqs = {}
+            for r in sim.request_log:
+                reqs[r["task"]] = reqs.get(r["task"], 0) + 1
+            want = {t["name"]: t["clients"] * t["iterations"] for _, ts in remaining for t in ts}
+            if reqs != want:
+                ctx.fail(cls + ":executed", "the driver did not execute exactly the remaining tasks (requests per task)", want, reqs)
+        ctx.sig(["race", case["mode"], exclude, S == 0, S == len(sc["schedule"]), res], nontrivial=True)
+    finally:
+        sim.shutdown()
+
+
 STREAMS = [
     Stream("filter", gen, run, quick=6000, thorough=300000),
+    Stream("filtered_race", gen_race, run_race, quick=160, thorough=6000, shards=16),
 ]
